@@ -5,9 +5,12 @@ package symgo
 
 import (
 	"go/token"
+	"strings"
 	"go/types"
 
 	"golang.org/x/tools/go/ssa"
+
+	"verif/engine/smt"
 )
 
 type syncState struct {
@@ -15,6 +18,30 @@ type syncState struct {
 	readers map[*value]int
 	wg      map[*value]int64
 	avals   map[*value]value
+	pools   map[*value][]value // objects Put into pools of the module under test
+}
+
+// isTargetGlobal reports whether p is the address of a package-level variable
+// of the module under test (same module as the harness package).
+func (i *interpreter) isTargetGlobal(p *value) bool {
+	root := ""
+	if i.harnessPk != nil {
+		root = i.harnessPk.Pkg.Path()
+		for _, marker := range []string{"/lib", "/internal"} {
+			if k := strings.Index(root, marker); k >= 0 {
+				root = root[:k]
+			}
+		}
+	}
+	if root == "" {
+		return false
+	}
+	for g, addr := range i.globals {
+		if addr == p {
+			return g.Pkg != nil && strings.HasPrefix(g.Pkg.Pkg.Path(), root)
+		}
+	}
+	return false
 }
 
 func (i *interpreter) sync() *syncState {
@@ -111,10 +138,35 @@ func registerSyncStubs() {
 		}
 		return nil, true
 	}
-	// sync.Pool: never retains anything
-	externals["(*sync.Pool).Put"] = noop
+	// sync.Pool. Pools of the standard library and of dependencies never retain
+	// anything (one of the behaviours the real pool is allowed to show, and the
+	// one that does not multiply paths). A pool that is a package-level variable
+	// of the module under test is modelled with its full freedom: Get returns
+	// either the object Put last or a new one — a choice the exploration covers
+	// both ways — so code that keeps using an object after Put is exposed.
+	externals["(*sync.Pool).Put"] = func(fr *frame, a []value) (value, bool) {
+		p := a[0].(*value)
+		if fr.i.isTargetGlobal(p) {
+			if it, ok := a[1].(iface); ok && it.t != nil {
+				st := fr.i.sync()
+				if st.pools == nil {
+					st.pools = map[*value][]value{}
+				}
+				st.pools[p] = append(st.pools[p], a[1])
+			}
+		}
+		return nil, true
+	}
 	externals["(*sync.Pool).Get"] = func(fr *frame, a []value) (value, bool) {
 		p := a[0].(*value)
+		if kept := fr.i.sync().pools[p]; len(kept) > 0 {
+			c := fr.i.ex.Ctx
+			if fr.i.ex.Choose([]*smt.Term{c.BoolC(true), c.BoolC(true)}) == 0 {
+				v := kept[len(kept)-1]
+				fr.i.sync().pools[p] = kept[:len(kept)-1]
+				return v, true
+			}
+		}
 		st := (*p).(structure)
 		newFn := st[len(st)-1] // the New field is the last one
 		switch f := newFn.(type) {
